@@ -353,11 +353,14 @@ def coqchk(chk, mods):
 
 def run(chk):
     quick = chk.tier == 'quick'
-    sites = tr_c17_sites.generate()
-    chk.log('sites: %d direct, %d MIR_realloc callers, %d callback uses' % (
-        len(sites['direct']), len(sites['realloc_callers']), len(sites['callback_uses'])))
     r1 = chk.prove('Properties_C17')
-    r2 = chk.prove('Properties_C17_Sites')
+    # the regenerated file is specific to the tree under test: keep concurrent runs against different trees
+    # (VERIF_REPO) from interleaving between regeneration and proof
+    with vlib.Lock('c17-sites'):
+        sites = tr_c17_sites.generate()
+        chk.log('sites: %d direct, %d MIR_realloc callers, %d callback uses' % (
+            len(sites['direct']), len(sites['realloc_callers']), len(sites['callback_uses'])))
+        r2 = chk.prove('Properties_C17_Sites')
     impl, model = build()
     chk.cov['trusted_base'] += [
         'extraction: ExtrOcamlBasic only; ocaml/driver_c17.ml parses events and prints the verdict of the extracted accepts/first_reject',
